@@ -119,3 +119,14 @@ LON_IMPORTS = "From Coq Require Import ZifyBool.\nFrom Verde Require Import Mode
 def lon_obligations():
     return tie("LonSrc", os.path.join("verde", "coordinates.py"), LON_FUNCS, "pylite_longitude.v.tmpl",
                LON_THEOREMS, LON_IMPORTS)
+
+
+UTILS_FUNCS = ["partition_by_sum"]
+UTILS_THEOREMS = ["src_partition_by_sum_eq"]
+UTILS_IMPORTS = ("From Coq Require Import ZifyBool.\n"
+                 "From Verde Require Import Model.CrossVal Proofs.CrossValProofs Proofs.PyLiteBridge.")
+
+
+def utils_obligations():
+    return tie("UtilsSrc", os.path.join("verde", "utils.py"), UTILS_FUNCS, "pylite_utils.v.tmpl",
+               UTILS_THEOREMS, UTILS_IMPORTS)
